@@ -347,6 +347,18 @@ func (w *world) apply(o op) {
 		}
 		w.calls++
 		w.live = append(w.live[:o.h], w.live[o.h+1:]...)
+		// closing one result must leave every OTHER result of the same decoder - and the nested results it handed
+		// out - untouched: read them again right away (read-only: no further nested results are requested)
+		for _, oh := range w.live {
+			if sig, msg := lazyref.CheckFlat(oh.res, w.def, oh.fields, w.accs, tags, &w.calls); sig != "" {
+				w.fail("isolation/other-result-changed-by-Close/"+sig, "handle of %s after closing the handle of %s: %s", w.inputs[oh.in].name, w.inputs[h.in].name, msg)
+			}
+			for i, nh := range oh.nested {
+				if sig, msg := lazyref.CheckFlat(nh.res, w.subDef, nh.fields, w.accs, tags[:3], &w.calls); sig != "" {
+					w.fail("isolation-nested/other-result-changed-by-Close/"+sig, "nested #%d of %s after closing the handle of %s: %s", i, w.inputs[oh.in].name, w.inputs[h.in].name, msg)
+				}
+			}
+		}
 	}
 }
 
